@@ -56,7 +56,7 @@ fn harness_error(msg: &str) -> ! {
 }
 
 fn main() {
-    let args: Vec<String> = std::env::args().collect();
+    let args: Vec<String> = std::env::args_os().map(|a| a.to_string_lossy().into_owned()).collect();
     if args.len() < 2 {
         harness_error("no subcommand");
     }
